@@ -28,6 +28,9 @@ func init() {
 			ruleErrorDiscipline(r, "E8")
 			ruleCloseBeliefs(r, "E9")
 			ruleC16E10(r)
+			ruleC16E11(r)
+			ruleWhoMayReceive(r, "E12", "/iscp.Conn.replyCallCh", "(*iscp.Conn).ReceiveReplyCall")
+			ruleWhoMayReceive(r, "E13", "/iscp.Conn.downstreamCallCh", "(*iscp.Conn).ReceiveCall")
 			ruleLockPairingFor(r, le, "E6", "lock pairing in the call correlation paths: every function touching the waiter tables releases their mutexes on every path", func(fn *ssa.Function) bool {
 				for _, a := range collectAccesses(fn) {
 					fk := fieldKey(a.Owner, a.Field)
@@ -463,4 +466,40 @@ func ruleC16E10(r *Run) {
 	if n == 0 {
 		r.Undecided("reply dispatcher", "no function looks up Conn.replyCallChs and receives downstream calls")
 	}
+}
+
+// ruleC16E11: the waiter of one call receives from the channel registered for that call. In the reply wait that channel
+// is the function's parameter; the select must receive from it.
+func ruleC16E11(r *Run) {
+	r.Begin("E11", "the reply wait listens on its own channel: in (*Conn).receiveReplyCall the select receives from the channel parameter (the channel subscribeReply registered for this call)", 1)
+	p := r.P
+	fn := r.method("/iscp", "Conn", "receiveReplyCall")
+	if fn == nil {
+		return
+	}
+	name := fnName(fn)
+	var chParam *ssa.Parameter
+	for _, prm := range fn.Params {
+		if _, isCh := prm.Type().Underlying().(*types.Chan); isCh {
+			chParam = prm
+		}
+	}
+	if chParam == nil {
+		r.Undecided(name+" channel parameter", "not found")
+		return
+	}
+	ok := false
+	allInstrs(fn, func(ins ssa.Instruction) {
+		if sel, isSel := ins.(*ssa.Select); isSel {
+			for _, st := range sel.States {
+				if st.Dir == types.RecvOnly && canonVal(st.Chan) == ssa.Value(chParam) {
+					ok = true
+				}
+			}
+		}
+		if u, isU := ins.(*ssa.UnOp); isU && u.Op == token.ARROW && canonVal(u.X) == ssa.Value(chParam) {
+			ok = true
+		}
+	})
+	r.Check(name+" receives from its parameter", ok, p.pos(fn.Pos()), name, "the per-call reply channel handed to the wait is never received from: the caller would get whatever arrives elsewhere")
 }
